@@ -249,6 +249,13 @@ VarApply(vis, vs) == R(VisN(vis, vs), <<Call("f", 0, vs)>>)
 VarToOptional(i, v) == Pure(IF v.t = i THEN Some(v.v) ELSE None)
 VarHoldsType(i, v) == Pure(v.t = i)
 
+\* the accessors of variant::object (object_decl.hpp): type_index "Returns the index of the held type"
+\* - the tag of the tagged union, 1-based here; is_invalid: "This can only happen if an assignment of
+\* a different type throws an exception" (never for the values driven); get_unsafe<U>: "Returns a
+\* reference to the held type" - precondition: U is the held type (the harness only asks for it)
+VarIndex(v) == Pure([idx |-> IF Bug = "index_zero_based" THEN v.t - 1 ELSE v.t, invalid |-> FALSE])
+VarGet(v) == Pure(v.v)
+
 \* compare: "The two variants are equal if they hold the same type T and
 \* _compare(_left.get<T>(), _right.get<T>()) holds."   c[tag][x+1][y+1]
 VarCompare(a, b, c) ==
@@ -343,9 +350,9 @@ EitSequenceError(xs, f) ==
 \* its constructor or assignment operator"): after v = w the variant equals w; the source of a
 \* move keeps its alternative (object_decl.hpp, is_invalid: "This can only happen if an assignment
 \* of a different type throws an exception" - so a moved-from variant is never invalid).
-\* res = [dst (the target after the assignment), src_t (index held by the source afterwards)]
-VarAssign(v, w) ==
-  Pure([dst |-> IF Bug = "assign_keeps_index" THEN Var(v.t, w.v) ELSE w, src_t |-> w.t])
+\* VarAssign: the target after the assignment; VarAssignSrc: index held by the source afterwards
+VarAssign(v, w) == Pure(IF Bug = "assign_keeps_index" THEN Var(v.t, w.v) ELSE w)
+VarAssignSrc(v, w) == Pure(w.t)
 \* to_optional_ref + write through the reference: changes the held value iff the type is held
 VarRefWrite(i, v, y) == Pure(IF v.t = i THEN Var(i, y) ELSE v)
 \* dynamic_cast_: "tries to cast _base to T_1 first. If this fails, it tries to cast _base to T_2, and
